@@ -67,8 +67,150 @@ def rig_p(chk, tier, seed):
         outs = runner.run_workers("vlib.scenario", "worker", jobs, variant=variant, timeout=3000)
         stats[variant] = collect(chk, outs, variant, "C03")
         chk.seen(stats[variant]["requests"])
+    gj = [{"seed": seed * 733 + i, "rounds": 60 if tier == "quick" else 3000, "sessions": 4 + i % 5} for i in range(8)]
+    outs = runner.run_workers("checks.c03", "gather_worker", gj, variant="rel", timeout=3000)
+    stats["gather"] = collect(chk, outs, "rel", "C03")
+    chk.seen(stats["gather"]["requests"])
     chk.extra["rig_p"] = stats
     chk.floor("datagrams_judged", sum(s["requests"] for s in stats.values()), 8000)
+
+
+def gather_worker(job):
+    """Concurrency inside one event loop: N async sessions (mixed versions / security levels), each against its own
+    agent, issue their requests *together* (asyncio.gather), so encodes, sends, receives and decodes of different
+    sessions interleave at every await.  Per agent: exactly the expected datagram (judge_request); per call: the value
+    that agent sent for that very request."""
+    import asyncio
+    import gufo.snmp  # noqa: F401
+    from vlib import ber_ref as B, model as M
+    rng = random.Random(job["seed"])
+    res = {"calls": 0, "requests": 0, "ops": {}, "bad": [], "geom": [], "sizes": [], "other_aspects": {}, "harness": [], "cfgs": [], "inconclusive": [], "samples": []}
+    cfgs = [rigp.Cfg("v2c", client="async"), rigp.Cfg("v1", client="async", community="private"), rigp.Cfg("v3", client="async", engine_given=True),
+            rigp.Cfg("v3", auth="sha1", client="async", engine_given=True, user="gather-a"), rigp.Cfg("v3", auth="md5", priv="des", client="async", engine_given=True, user="gd"),
+            rigp.Cfg("v3", auth="sha1", priv="aes", client="async", engine_given=True, user="g" * 31), rigp.Cfg("v2c", client="async", community="c" * 40),
+            rigp.Cfg("v3", auth="md5", priv="aes", client="async", engine_given=True, auth_kt="master", priv_kt="localized")]
+    rng.shuffle(cfgs)
+    cfgs = cfgs[:job.get("sessions", 6)]
+    slots = []
+    for cfg in cfgs:
+        box = {"reqs": [], "serial": rng.randrange(1, 1 << 20) << 8}
+
+        def handler(agent, req, box=box):
+            box["reqs"].append(req)
+            if not req.ok:
+                return None
+
+            def f(req):
+                box["serial"] += 1
+                box["last"] = box["serial"]
+                time_d = box.get("delay", 0.0)
+                oids = req.oids() or [(1, 3)]
+                if req.pdu["tag"] == B.PDU_GET:
+                    dg = agent.reply(req, [B.enc_varbind(o, B.enc_int(box["serial"])) for o in oids])
+                else:
+                    dg = agent.reply(req, [B.enc_varbind(oids[0] + (1,), B.enc_int(box["serial"]))])
+                return [(time_d, dg)]
+            return agent.discovery_or(req, f)
+        agent = rigp.Agent(handler, users=[cfg.user_keys()], boots=rng.randrange(1, 1000), etime=rng.randrange(1, 100000)).start()
+        slots.append({"cfg": cfg, "agent": agent, "box": box})
+        res["cfgs"].append(cfg.key())
+
+    async def main():
+        for sl in slots:
+            sl["s"] = rigp.make_session(sl["cfg"], sl["agent"], timeout=2.0)
+            await sl["s"].__aenter__()
+        for rnd in range(job["rounds"]):
+            plan = []
+            for sl in slots:
+                op = rng.choice(["get", "get", "get_many", "getnext1", "getbulk1", "skip"])
+                if op == "getbulk1" and sl["cfg"].version == "v1":
+                    op = "getnext1"
+                oids = [M.gen_oid(rng, 2, rng.choice([4, 14, 60])) for _ in range(1 if op != "get_many" else rng.choice([1, 2, 7, 30]))]
+                sl["box"]["reqs"] = []
+                sl["box"]["delay"] = rng.choice([0.0, 0.0, 0.002, 0.01, 0.03])
+                plan.append((sl, op, oids))
+
+            async def one(sl, op, oids):
+                s = sl["s"]
+                try:
+                    if op == "skip":
+                        return ("ok", None)
+                    if op == "get":
+                        return ("ok", await s.get(B.oid_text(oids[0])))
+                    if op == "get_many":
+                        return ("ok", await s.get_many([B.oid_text(o) for o in oids]))
+                    it = s.getnext(B.oid_text(oids[0])) if op == "getnext1" else s.getbulk(B.oid_text(oids[0]))
+                    return ("ok", await it.__anext__())
+                except BaseException as e:
+                    if isinstance(e, (KeyboardInterrupt, SystemExit)):
+                        raise
+                    return ("exc", rigp.exc_info(e))
+            outs = await asyncio.gather(*[one(*p) for p in plan])
+            for (sl, op, oids), out in zip(plan, outs):
+                if op == "skip":
+                    continue
+                cfg, box = sl["cfg"], sl["box"]
+                res["calls"] += 1
+                res["ops"]["gather:" + op] = res["ops"].get("gather:" + op, 0) + 1
+                v3 = cfg.version == "v3"
+                synced = v3 and (cfg.auth or sl.get("answered"))   # boots/time are adopted from every accepted message
+                sl["answered"] = sl.get("answered") or out[0] == "ok"
+                st = {"engine_id": sl["agent"].engine_id if v3 else b"", "boots": sl["agent"].boots if synced else 0,
+                      "time": sl["agent"].time if synced else 0, "user": cfg.user.encode(), "auth": bool(cfg.auth) and v3, "priv": bool(cfg.priv) and v3}
+                tag = B.PDU_GET if op in ("get", "get_many") else (B.PDU_GETNEXT if op == "getnext1" else B.PDU_GETBULK)
+                exp = {"tag": tag, "a": 0, "b": 20 if tag == B.PDU_GETBULK else 0, "oids": oids, "report": False}
+                bad = []
+                if out[0] == "exc" and out[1]["cls"] == "TimeoutError":
+                    # load - or replies that are not delivered when sessions run concurrently?  Three consecutive rounds in
+                    # which this session's agent answered (its own log: reply sent within 0.3 s of the request) decide.
+                    log = sl["agent"].log[-4:]
+                    rx = [t for k, t, _ in log if k == "rx"]
+                    tx = [t for k, t, _ in log if k == "tx"]
+                    answered = bool(rx and tx and tx[-1] >= rx[-1] and tx[-1] - rx[-1] < 0.3e9)
+                    sl["streak"] = sl.get("streak", 0) + 1 if answered else 0
+                    if sl["streak"] >= 3:
+                        bad.append(("deaf", "three consecutive concurrent rounds timed out (2 s) although this session's agent answered each request within 0.3 s", None))
+                        sl["streak"] = 0
+                    else:
+                        res["inconclusive"].append("gather: %s %s timed out (answered=%s)" % (cfg.key(), op, answered))
+                        continue
+                else:
+                    sl["streak"] = 0
+                if bad:
+                    pass
+                elif len(box["reqs"]) != 1:
+                    bad.append(("count", "%d datagrams for one %s" % (len(box["reqs"]), op), box["reqs"][0] if box["reqs"] else None))
+                else:
+                    res["requests"] += 1
+                    for aspect, msg in scenario.judge_request(box["reqs"][0], cfg, exp, st):
+                        bad.append((aspect, msg, box["reqs"][0]))
+                    want = box.get("last")
+                    if op == "get":
+                        good = out == ("ok", want)
+                    elif op == "get_many":
+                        good = out[0] == "ok" and isinstance(out[1], dict) and out[1] == {B.oid_text(o): want for o in oids}
+                    else:
+                        good = out == ("ok", (B.oid_text(oids[0] + (1,)), want))
+                    if not good:
+                        bad.append(("result", "%s returned %s; this session's agent answered this request with serial %s" % (op, repr(out)[:160], want), box["reqs"][0]))
+                for aspect, msg, rq in bad:
+                    if len(res["bad"]) < 100:
+                        res["bad"].append({"aspect": aspect, "msg": "[%d sessions concurrently in one event loop] %s" % (len(slots), msg), "cfgkey": cfg.key(), "cfg": cfg.to_json(),
+                                           "op": "gather:" + op, "args": repr([B.oid_text(o) for o in oids])[:200], "behaviour": "reply", "outcome": repr(out)[:160],
+                                           "datagram": rq.raw.hex() if rq is not None else None, "state": {}})
+                if len(res["samples"]) < 2 and rnd % 25 == 3:
+                    res["samples"].append({"concurrent_sessions": [x["cfg"].key() for x in slots], "this_session": cfg.key(), "op": op,
+                                           "oids": [B.oid_text(o) for o in oids][:3], "returned": repr(out)[:120], "agent_serial": box.get("last")})
+    loop = asyncio.new_event_loop()
+    try:
+        loop.run_until_complete(main())
+    finally:
+        loop.close()
+    for sl in slots:
+        if sl["agent"].errors:
+            res["harness"].append(sl["agent"].errors[0][-400:])
+        sl["agent"].stop()
+    return res
 
 
 def rig_r(chk, tier, seed):
